@@ -33,7 +33,7 @@ def strip(nodes):
 def case_strategy():
     return st.fixed_dictionaries(
         {
-            "roots": gen.layout_forest(newlines=True, meta=3, spaces=True).map(gen.number),
+            "roots": gen.layout_forest(newlines=True, meta=3, spaces=True, blank=("", " ")).map(gen.number),
             "indent": st.integers(0, 4),
             "eol": st.sampled_from(EOLS),
             "pick": st.integers(0, 10**6),
